@@ -2591,6 +2591,8 @@ class CompressedCertificate(Certificate):
 
     def parse(self, p):
         """Deserialize CompressedCertificate message from parser."""
+        self._compressed_msg = None
+        self._uncompressed_msg_len = None
         p.startLengthCheck(3)
         self.compression_algo = p.get(2)
         expected_length = p.get(3)
